@@ -102,8 +102,8 @@ def opMoveFull (w : World) (kx : Nat) (cx : List (Hdr × Items)) (kp : Nat) (cp 
         | none => (xkids, destPrefix, true)
       else (xkids, destPrefix, false)
     if nameFail then
-      -- Rust: make_unique_item_name fails after the element was unlinked and un-registered in the source model
-      (w1, .err)
+      -- refused before anything changes (since the repair of c11:move-fails-without-item-name)
+      (w, .err)
     else
       -- `add_identifiable` for every entry of the path map (an existing entry of the destination is overwritten)
       let idx1 := origPaths.foldl (fun ix (op : Bytes × Nat) =>
@@ -170,8 +170,9 @@ def opMove (w : World) (p x : Nat) (pos? : Option Nat) : World × Ans :=
                     | none => (xkids, destPrefix, true)
                   else (xkids, destPrefix, false)
                 if nameFail then
-                  -- Rust: make_unique_item_name fails after the element was already unlinked
-                  (setModel w kp (m.setRoot root1), .err)
+                  -- refused before the element is taken out of its parent (since the repair of c11:move-fails-without-item-name;
+                  -- before it, `make_unique_item_name` failed after the element had been unlinked)
+                  (w, .err)
                 else
                   let idx1 :=
                     if isIdentifiable S xh xkids then idxFix m.index srcPrefix destPath
